@@ -11,10 +11,11 @@ Judged on the implementation without the model: for every object that has spec c
 `registration_conforms_partial`: relays a list, names present, no `id`) the bytes equal the reference encoding of that
 content — addresses as the bytes the `socket` module computes for the stored text, the margin as `Fraction` reduces it,
 the owner set tagged iff it is an `OrderedSet` with the tag; content outside the value ranges of the CDDL (negative or
-> 64-bit coins, ports > 65535, texts > 128 bytes) is compared with a range-free rendering of the same rule.  Objects
-without spec content (`relays=None` — the dataclass default —, `dns_name=None`, a set `id`) are the recorded
-counterexamples of `registration_conforms_goal`: they are counted, both the Lean recogniser and the reference lifter
-must refuse their bytes, and the fixed witnesses are replayed on every run."""
+> 64-bit coins, ports > 65535, texts > 128 bytes) is compared with a range-free rendering of the same rule.  `PoolParams(...)`
+with the relays omitted or `None` holds `[]` (daec0e4) and is judged like any other object (the former counterexample).
+Objects without spec content (`dns_name=None`, a set `id`) are the recorded counterexamples of
+`registration_conforms_goal`: they are counted, both the Lean recogniser and the reference lifter must refuse their bytes,
+and the fixed witnesses are replayed on every run."""
 from __future__ import annotations
 
 import random
@@ -45,11 +46,8 @@ free_registration = P.free_registration
 
 def why_outside(j):
     out = []
-    if j["relays"] is None:
-        out.append("relays=None")
-    else:
-        if any(r["k"] != "addr" and r["dns"] is None for r in j["relays"]):
-            out.append("dns_name=None")
+    if any(r["k"] != "addr" and r["dns"] is None for r in (j["relays"] or [])):
+        out.append("dns_name=None")
     if j["id"] is not None:
         out.append("id")
     return out
@@ -86,7 +84,7 @@ def check_reg(ctx, case):
     lifted = lifts("certificate", b)
     if sp is None:
         for r in reasons:
-            ctx.count(f"pool-reg:no-spec-content:{r} (registration_conforms_counterexample)")
+            ctx.count(f"pool-reg:no-spec-content:{r} (registration_conforms_counterexample_{'dns' if r.startswith('dns') else 'id'})")
         ctx.skipped += 1
         # both independent statements of the grammar must refuse these bytes — otherwise the counterexample is gone
         if is_reg is True:
@@ -112,7 +110,7 @@ def check_reg(ctx, case):
         raise rerr
     ow = j["owners"]
     ctx.count(f"pool-reg:owners:{'tagged' if tagged else 'untagged'}:n={min(len(content['owners']), 25)}")
-    ctx.count(f"pool-reg:relays:n={len(content['relays'])}")
+    ctx.count("pool-reg:relays:" + ("None/omitted -> []" if j["relays"] is None else f"n={len(content['relays'])}"))
     if ctx.have_driver():
         m = mcall(ctx, {"op": "pool.reg.mk", "p": j})
         if "err" in m or m["hex"] != b.hex():
@@ -251,7 +249,8 @@ def check_body(ctx, case):
 
 
 def witness_cases(ctx):
-    """the witnesses of the three `registration_conforms_counterexample*` theorems on the implementation"""
+    """fixed objects: the default constructor call (relays omitted — the former registration_conforms_counterexample, repaired by
+    daec0e4: judged like any other case, it must conform) and the witnesses of the two remaining counterexample theorems"""
     from pycardano.certificate import PoolRegistration
     from pycardano.hash import PoolKeyHash, RewardAccountHash, VerificationKeyHash, VrfKeyHash
     from pycardano.pool_params import PoolId, PoolParams, SingleHostName
@@ -259,8 +258,19 @@ def witness_cases(ctx):
     def base(**kw):
         return PoolParams(PoolKeyHash(bytes([1]) * 28), VrfKeyHash(bytes([2]) * 32), 100, 200, Fraction(1, 2),
                           RewardAccountHash(b"\xe1" + bytes([3]) * 28), [VerificationKeyHash(bytes([4]) * 28)], **kw)
-    wits = {"relays=None (the default)": base(),
-            "dns_name=None": base(relays=[SingleHostName(port=3001, dns_name=None)]),
+    content = {"operator": bytes([1]) * 28, "vrf": bytes([2]) * 32, "pledge": 100, "cost": 200, "margin": [1, 2],
+               "reward_account": b"\xe1" + bytes([3]) * 28, "owners": [bytes([4]) * 28], "relays": [], "metadata": None}
+    for name, pp in (("relays omitted", base()), ("relays=None", base(relays=None))):
+        b = PoolRegistration(pp).to_cbor()
+        desc = {"ext": EXT, "kind": "witness", "witness": name, "hex": b.hex()}
+        ref = R.enc(C.t_cert({"code": 3, "params": content}, C.WireChoices(sets={"pool_owners": False})))
+        ctx.count(f"pool-witness:{name}:" + ("conforms" if b == ref else "differs from the reference"))
+        if b != ref or not lifts("certificate", b):
+            ctx.violation(f"PoolRegistration(PoolParams(...)) with {name}: bytes differ from the reference encoder (relays: [* relay])",
+                          desc, ref.hex(), b.hex())
+        if ctx.have_driver() and mcall(ctx, {"op": "pool.spec.is", "rule": "pool_registration", "hex": b.hex()}) is not True:
+            ctx.diff("pool.spec.is(default relays)", desc, False, "the default constructor call conforms")
+    wits = {"dns_name=None": base(relays=[SingleHostName(port=3001, dns_name=None)]),
             "id set": base(relays=[], id=PoolId("pool1qyqszqgpqyqszqgpqyqszqgpqyqszqgpqyqszqgpqyqszp9s8mq"))}
     for name, pp in wits.items():
         b = PoolRegistration(pp).to_cbor()
@@ -280,9 +290,9 @@ KINDS = {"pool-reg": check_reg, "pool-relay": check_relay, "pool-ret": check_ret
 
 def run_ext(ctx):
     ctx.assumptions.append(
-        "pool (C02_Pool): objects without spec content — PoolParams.relays=None (the dataclass default, written as null), a "
-        "SingleHostName / MultiHostName with dns_name=None (written as null), a set PoolParams.id (a tenth item) — are outside the "
-        "Conway CDDL (theorems registration_conforms_counterexample, _dns, _id); they are counted, not judged")
+        "pool (C02_Pool): objects without spec content — a SingleHostName / MultiHostName with dns_name=None (written as null), a set "
+        "PoolParams.id (a tenth item) — are outside the Conway CDDL (theorems registration_conforms_counterexample_dns, _id); they are "
+        "counted, not judged")
     n = ctx.budget(200, 6000)
     for i in range(n):
         KINDS["pool-reg"](ctx, {"ext": EXT, "kind": "pool-reg", "seed": f"{ctx.seed}/pool2/reg{i}"})
